@@ -106,6 +106,8 @@ def sub_traj(case):
     three_d = mode == "xyz"
     idx = _idx(mode)
     fig = plt.figure()
+    if case.get("other_fig"):
+        plt.figure()   # a different figure is pyplot's current one while this one is drawn on
     try:
         ax = plot.prepare_axis(fig, plot.PlotMode[mode], length_unit=Unit(unit))
         _check_labels(ax, mode, unit, "prepare_axis")
@@ -155,6 +157,8 @@ def sub_colormap(case):
     n = real.n
     err = np.abs(np.sin(np.arange(n, dtype=float) * 1.3)) + 0.1
     fig = plt.figure()
+    if case.get("other_fig"):
+        plt.figure()   # a different figure is pyplot's current one while this one is drawn on
     try:
         ax = plot.prepare_axis(fig, plot.PlotMode[mode])
         plot.traj_colormap(ax, obj, err, plot.PlotMode[mode], min_map=float(err.min()), max_map=float(err.max()), fig=fig,
@@ -314,6 +318,12 @@ def sub_error_array(case):
     cli.reset_state()
     vals = np.asarray(case["vals"], dtype=float)
     x = None if case["x"] is None else np.cumsum(np.abs(np.asarray((case["x"] * len(vals))[: len(vals)], dtype=float)) + 0.01)
+    if x is not None and case.get("xkind") == "repeats":
+        # e.g. distances from start with standstills: equal x values follow each other
+        x = np.floor(x)
+    elif x is not None and case.get("xkind") == "free":
+        # any x array is shown as given (not sorted, nothing dropped)
+        x = np.asarray((case["x"] * len(vals))[: len(vals)], dtype=float)
     try:
         fig = plt.figure()
         ax = fig.gca()
@@ -348,6 +358,8 @@ def sub_trajectories(case):
     exp = [real] if kind == "single" else [real, real2]
     try:
         fig = plt.figure()
+        if case.get("other_fig"):
+            plt.figure()
         if case["use_axes"]:
             ax = plot.prepare_axis(fig, plot.PlotMode[mode], length_unit=Unit(case["unit"]))
             plot.trajectories(ax, arg, plot.PlotMode[mode], plot_start_end_markers=case["markers"])
@@ -372,11 +384,12 @@ def _st_plot(min_n, max_n):
         "traj": trajgen.st_traj(n, stamps=True, exp_lo=-2, exp_hi=4), "timed": st.booleans(), "mode": st.sampled_from(MODES),
         "unit": st.sampled_from(["mm", "cm", "m", "km"]), "markers": st.booleans(), "style": st.sampled_from(["-", "--", "o"]),
         "scale": st.sampled_from([0.0, 0.1, 2.5]), "start": st.sampled_from(["none", "t0", "other"]),
-        "container": st.sampled_from(["single", "list", "dict"]), "use_axes": st.booleans(), "standstill": st.booleans()}))
+        "container": st.sampled_from(["single", "list", "dict"]), "use_axes": st.booleans(), "standstill": st.booleans(),
+        "other_fig": st.sampled_from([False, False, True])}))
 
 
 st_err = st.fixed_dictionaries({"vals": st.lists(gen.fl(0.0, 1e3), min_size=1, max_size=50), "x": st.one_of(st.none(), st.lists(gen.fl(-5, 5), min_size=1, max_size=5)),
-                                "cumulative": st.booleans(), "stats": st.booleans()})
+                                "cumulative": st.booleans(), "stats": st.booleans(), "xkind": st.sampled_from(["increasing", "repeats", "free"])})
 st_bulk = st.fixed_dictionaries({
     "traj": st.just(None), "seed": st.integers(0, 2 ** 32)})
 
@@ -384,6 +397,6 @@ SUBS = [
     Sub("traj", sub_traj, _st_plot(2, 40), 250, 10000, nontrivial=lambda c: True, shards_quick=4),
     Sub("colormap_markers_edges", sub_colormap, _st_plot(2, 16), 160, 8000, nontrivial=lambda c: True, shards_quick=4),
     Sub("time_series", sub_time_series, _st_plot(2, 30), 200, 8000, nontrivial=lambda c: True, shards_quick=4),
-    Sub("error_array", sub_error_array, st_err, 100, 3000, nontrivial=lambda c: len(c["vals"]) >= 2, shards_quick=2),
+    Sub("error_array", sub_error_array, st_err, 200, 5000, nontrivial=lambda c: len(c["vals"]) >= 2, shards_quick=2),
     Sub("trajectories", sub_trajectories, _st_plot(2, 12), 120, 5000, nontrivial=lambda c: True, shards_quick=2),
 ]
